@@ -4,6 +4,7 @@ import corelib
 import gen
 from checks.c08 import Prog
 import checks.c02 as c02
+import svlib
 
 
 def run(chk, replay=None):
@@ -16,6 +17,10 @@ def run(chk, replay=None):
         return c01.do_replay(replay)
     rng = chk.rng
     quick = chk.tier == "quick"
+    build_harness_fixed()
+
+    def fixed(line):
+        return svlib._run_lines(svlib.SVH_FIXED, "core", [line], shards=1)[0]
     gprogs = corelib.gen_programs(chk, 100 if quick else 1500, "gprune", size=30, allow_params=False)
     gprogs += corelib.partial_witness_programs(chk, 80 if quick else 2000, "pw")
     # programs whose verdict depends on the environment
@@ -57,7 +62,10 @@ def run(chk, replay=None):
             continue
         # satisfy_with_env(Some(env)) returns Err exactly when the unpruned program fails under env
         if cu == "ok":
-            if cp != "ok":
+            if cp != "ok" and corelib.classify_impl(fixed(ln)) == "ok":
+                chk.violation({"class": "upstream-value-prune", "what": g.text[:300]},
+                              dict(base, expected="ok", with_corrected_dependency="ok", broken="satisfy_with_env(Some(env)) fails only because of simplicity-lang 0.4.0 Value::prune (D10)"))
+            elif cp != "ok":
                 chk.violation({"class": "prune-verdict", "what": "unpruned ok, pruned %s || %s" % (y[:80], g.text[:160])},
                               dict(base, expected="ok", broken="the unpruned program succeeds under env but satisfy_with_env(Some(env)) does not return a succeeding program"))
             elif "DIFF" in y or "decode=ok" not in y:
@@ -67,7 +75,7 @@ def run(chk, replay=None):
                 chk.violation({"class": "prune-verdict", "what": "unpruned fails, pruned %s || %s" % (y[:80], g.text[:160])},
                               dict(base, expected="Err", broken="the unpruned program fails under env but satisfy_with_env(Some(env)) returned a program"))
     # the pruned run against the source semantics, with the observed value pinned (so that successes are frequent)
-    corelib.run_matrix(chk, [g for g in acc if not g.label.startswith("env/")], dbgs=(0,), cmd="runp", pruned=True, max_assign=8 if quick else None)
+    corelib.run_matrix(chk, [g for g in acc if not g.label.startswith("env/")], dbgs=(0,), cmd="runp", pruned=True, max_assign=8 if quick else None, upstream_fixed=fixed)
     chk.extra["rule"] = ("generated programs x witness assignments, and programs whose verdict depends on the environment (check_lock_*, current_sequence, lock_time; one with an untaken branch holding an "
                          "unsatisfiable lock) : satisfy_with_env(Some(dummy env)) is Ok exactly when the unpruned redeem program succeeds under the same env; the pruned program has the commit CMR, "
                          "decodes and succeeds")
